@@ -118,7 +118,7 @@ def stepCall (k : Kind) (s : St) (a : Actor) (c : Call) : Option St :=
                        emptyAtPoll := upd s.emptyAtPoll a false, base := upd s.base a s.now } a p)
 
 def stepRet (s : St) (a : Actor) (r : Option Nat) : Option St :=
-  if s.pc a = .retp ∧ r = s.got a then some (setPc s a .idle) else none
+  if s.pc a = .retp ∧ r = s.got a then some (setPc { s with got := upd s.got a none } a .idle) else none
 
 def stepAdvance (s : St) (v : Nat) : Option St :=
   if v < s.now then none else some { s with now := v }
